@@ -158,9 +158,8 @@ def gateScopeB (o : Opts) (file : List Message) : Bool :=
 
 /-- `CsvUnambiguous`: every file starts with its only file_id; every message as `mesgScopeB` (field values as the
 decoder produces them and in its normal form, strings within the safe alphabet, arrays non-empty, field numbers distinct,
-expanded flags = component targets); developer fields as `devsOK`; what the encoder's gate needs (`gateScopeB`); no position in degrees (arithmetic) -/
+expanded flags = component targets); developer fields as `devsOK`; what the encoder's gate needs (`gateScopeB`). Every option: raw, verbose, trim, degrees. -/
 def csvUnambiguousB (o : Opts) (files : List (List Message)) : Bool :=
-  !o.degrees &&
   files.all fun file =>
     (match file with
      | m :: rest => m.num == mnFileId && rest.all (·.num != mnFileId)
@@ -169,7 +168,6 @@ def csvUnambiguousB (o : Opts) (files : List (List Message)) : Bool :=
 
 /-- which conjunct of `csvUnambiguousB` fails first (evidence: the driver counts the reasons) -/
 def csvScopeWhy (o : Opts) (files : List (List Message)) : String :=
-  if o.degrees then "degrees" else
   if !(files.all fun file => match file with | m :: rest => m.num == mnFileId && rest.all (·.num != mnFileId) | [] => false) then "file-shape" else
   if !(files.all fun file => file.all fun m => m.fields.all (fun f => plainField f && decide (fieldNumOf f < 256) && fieldOK m f)) then "field-value" else
   if !(files.all fun file => file.all fun m => m.fields.all (fun f => csvNorm f.value == f.value)) then "normal-form" else
